@@ -94,6 +94,10 @@ func (r *Runner) execCallVals(st *State, f *Frame, common *ssa.CallCommon, fnv V
 				r.contractCall(st, f, sp, nil, common.Signature(), append([]Val{recv}, args...), res, pos)
 				return
 			}
+			if isPureExternal(key) {
+				r.havocCall(st, f, common.Signature(), args, res, key, false)
+				return
+			}
 			r.note("interface call havocked: " + key)
 			r.havocCall(st, f, common.Signature(), append([]Val{recv}, args...), res, key, true)
 			return
@@ -164,7 +168,9 @@ func (r *Runner) afterInline(st *State, done *Frame) {}
 var purePkgs = []string{"fmt.", "log.", "log/slog.", "errors.", "strings.", "strconv.", "math.", "math/bits.", "unicode.", "unicode/utf8.",
 	"time.", "(time.", "(*time.", "path.", "path/filepath.", "bytes.Equal", "bytes.Compare", "bytes.HasPrefix", "sort.Search", "(*log/slog.", "(log/slog.",
 	"hash/crc32.", "github.com/cespare/xxhash", "(*strings.Builder)", "os.Getenv", "runtime.", "(*sync/atomic.", "sync/atomic.",
-	"github.com/hydraide/hydraide/app/panichandler.", "(*github.com/hydraide/hydraide/app/core/hydra/stats", "context.", "(context."}
+	"github.com/hydraide/hydraide/app/panichandler.", "(*github.com/hydraide/hydraide/app/core/hydra/stats", "context.", "(context.",
+	"google.golang.org/grpc/status.", "google.golang.org/grpc/codes.", "runtime/debug.", "(error).Error", "(*google.golang.org/grpc/status.",
+	"google.golang.org/protobuf/types/known/timestamppb.", "(*google.golang.org/protobuf/types/known/timestamppb."}
 
 func isPureExternal(key string) bool {
 	for _, p := range purePkgs {
@@ -369,12 +375,43 @@ func (r *Runner) contractCall(st *State, f *Frame, sp *FuncSpec, callee *ssa.Fun
 	if res != nil {
 		f.regs[res] = packResults(res.Type(), results)
 	}
+	// call history ghost: counter and last arguments/results, for calls()/calledwith()/lastret() in contracts
+	if st.lastCall == nil {
+		st.lastCall = map[string]callRec{}
+	}
+	st.lastCall[short] = callRec{args: args, rets: results}
+	st.ghost["calls:"+short] = st.define("calls", Add(r.callsTerm(st, short), One))
+}
+
+type callRec struct {
+	args []Val
+	rets []Val
+}
+
+// callsTerm: number of calls of the contracted callee `short` made so far (ghost).
+func (r *Runner) callsTerm(st *State, short string) Term {
+	if t, ok := st.ghost["calls:"+short]; ok {
+		return t
+	}
+	t := Sym("calls_"+sanitize(short)+"@entry", SInt) // never havocked: counts calls made by this body
+	st.ghost["calls:"+short] = t
+	return t
 }
 
 func (r *Runner) havocTarget(st *State, t ModTarget) {
 	switch {
 	case t.Ghost != "":
 		st.ghost["spec:"+t.Ghost] = Fresh("ghost_"+t.Ghost, SInt)
+	case t.Chans:
+		r.closedHeap(st)
+		st.heap["CH|closed"] = Fresh("ChanClosed", SArrB)
+		st.logWrite("CH|closed", Term{"*", SInt})
+	case t.Arrays != nil:
+		for _, l := range layout(t.Arrays) {
+			old := st.heapGet("M", t.Arrays, l)
+			st.heap[heapKey("M", t.Arrays, l)] = Fresh("hvarr", old.Sort)
+			st.logWrite(heapKey("M", t.Arrays, l), Term{"*", SInt})
+		}
 	case t.Place != nil:
 		ty, _, _ := t.Place.typeAt()
 		nv := freshVal("mod", ty)
@@ -434,6 +471,11 @@ func (r *Runner) finish(st *State, f *Frame, rv []Val, pos token.Pos) {
 			env.vars[n] = f.params[i]
 		}
 	}
+	for n, v := range f.fvEntry {
+		if _, clash := env.vars[n]; !clash {
+			env.vars[n] = v
+		}
+	}
 	if len(sp.Results) > len(rv) {
 		panic(specErr{fmt.Sprintf("contract %s names %d results, function returns %d", sp.Key, len(sp.Results), len(rv))})
 	}
@@ -474,6 +516,7 @@ type frameExc struct {
 	base   Term
 	lo, hi Term // for M: element range excluded; zero Terms = whole object
 	ranged bool
+	all    bool // the whole component may change
 }
 
 func (r *Runner) frameCheck(st *State, f *Frame, env *SEnv, pos token.Pos) {
@@ -485,6 +528,13 @@ func (r *Runner) frameCheck(st *State, f *Frame, env *SEnv, pos token.Pos) {
 	for _, m := range sp.Modifies {
 		t := penv.evalModSafe(m)
 		switch {
+		case t.Chans:
+			exc["CH|closed"] = append(exc["CH|closed"], frameExc{all: true})
+		case t.Arrays != nil:
+			for _, l := range layout(t.Arrays) {
+				k := heapKey("M", t.Arrays, l)
+				exc[k] = append(exc[k], frameExc{all: true})
+			}
 		case t.Place != nil && t.Place.Kind == PObj:
 			_, lo, hi := t.Place.typeAt()
 			root := layout(t.Place.Root)
@@ -530,6 +580,15 @@ func (r *Runner) frameCheck(st *State, f *Frame, env *SEnv, pos token.Pos) {
 		now := st.heap[k]
 		was := r.initialHeapTerm(f.entry, k)
 		if now.S == was.S {
+			continue
+		}
+		skip := false
+		for _, e := range exc[k] {
+			if e.all {
+				skip = true
+			}
+		}
+		if skip {
 			continue
 		}
 		rv := BoundVar("r")
